@@ -96,6 +96,7 @@ type Path struct {
 	PanicMsg         string
 
 	NDecisions   int
+	NPointEval   int // conjunctions decided by evaluation at the single point they pin
 	NSolver      int
 	NModelHits   int
 	NAsserts     int
@@ -246,7 +247,12 @@ func (p *Path) relevant(query ...*smt.Term) ([]*smt.Term, map[int]bool) {
 // variables of the relevant classes.
 func (p *Path) checkSliced(wantModel bool, query ...*smt.Term) (smt.Result, smt.Model) {
 	terms, reps := p.relevant(query...)
-	r, m := p.S.Check(p.B, terms, wantModel, p.B.Vars)
+	r, m, decided := p.pointEval(terms)
+	if decided {
+		p.NPointEval++
+	} else {
+		r, m = p.S.Check(p.B, terms, wantModel, p.B.Vars)
+	}
 	if r == smt.Unknown {
 		p.unknownsHere++
 		if p.unknownsHere > 6 {
@@ -287,6 +293,60 @@ func (p *Path) checkSliced(wantModel bool, query ...*smt.Term) (smt.Result, smt.
 		}
 	}
 	return r, merged
+}
+
+// pointEval decides a conjunction without the solver when its conjuncts pin
+// every variable they mention to a constant (x = c, b, not b): the conjunction
+// is then satisfiable iff it evaluates to true at that single point.  (Sound
+// and complete for such conjunctions; anything the evaluator does not
+// interpret - uninterpreted functions, unspecified conversions - is left to
+// the solver.)
+func (p *Path) pointEval(terms []*smt.Term) (smt.Result, smt.Model, bool) {
+	point := smt.Model{}
+	pinned := map[*smt.Term]bool{}
+	for _, t := range terms {
+		switch {
+		case t.Op == smt.OEq && t.Args[0].Op == smt.OVar && t.Args[1].Op == smt.OConst:
+			point[t.Args[0].Name] = t.Args[1].U
+			pinned[t.Args[0]] = true
+		case t.Op == smt.OEq && t.Args[1].Op == smt.OVar && t.Args[0].Op == smt.OConst:
+			point[t.Args[1].Name] = t.Args[0].U
+			pinned[t.Args[1]] = true
+		case t.Op == smt.OVar && t.Sort.K == smt.KBool:
+			point[t.Name] = 1
+			pinned[t] = true
+		case t.Op == smt.ONot && t.Args[0].Op == smt.OVar:
+			point[t.Args[0].Name] = 0
+			pinned[t.Args[0]] = true
+		}
+	}
+	if len(pinned) == 0 {
+		return smt.Unknown, nil, false
+	}
+	pinnedIdx := map[int]bool{}
+	for v := range pinned {
+		if idx, ok := p.varIdx[v]; ok {
+			pinnedIdx[idx] = true
+		}
+	}
+	for _, t := range terms {
+		for _, idx := range p.varsOf(t) {
+			if !pinnedIdx[idx] {
+				return smt.Unknown, nil, false
+			}
+		}
+	}
+	memo := map[*smt.Term]uint64{}
+	for _, t := range terms {
+		v, ok := smt.Eval(t, point, memo)
+		if !ok {
+			return smt.Unknown, nil, false
+		}
+		if v != 1 {
+			return smt.Unsat, nil, true
+		}
+	}
+	return smt.Sat, point, true
 }
 
 // endReplay is called when the last prefix decision has been consumed.
